@@ -249,6 +249,8 @@ def impl_run(strategy, cfg, tc, file0, verdict, clock=(), exc_class=TestRaised, 
             _watch.update(events=None)
             st.time = old_time
             st.ReductionIterator.try_testcase = orig_try
+        if res.exc not in (None, "test", "CapHit", "Hang"):
+            steps.append(("F", res.exc))  # the strategy itself failed: the replay must fail there too
         res.steps = steps
         res.timeline = timeline
         li = lith.last_interesting
@@ -286,7 +288,9 @@ def enc_tc(tc):
 def enc_steps(steps):
     out = []
     for kind, v in steps:
-        if kind == "W":
+        if kind == "F":
+            out.append("F:" + v)
+        elif kind == "W":
             out.append("W:" + hx(v))
         else:
             out.append("P:" + "/".join([hx(v[0]), enc_parts(v[1]), enc_bools(v[2]), hx(v[3])]))
@@ -320,3 +324,108 @@ def dfs_verdicts(run_fn, max_runs=100000, first=("Y",), alphabet="YN"):
             return
         for i in range(len(prefix), n):
             stack.append(prefix + "N" * (i - len(prefix)) + "Y")
+
+
+def impl_session(steps, exc_class=TestRaised, ext=".txt", watchdog=60.0):
+    """Several consecutive runs on ONE Lithium object (and, where the atom type / strategy name repeats,
+    the same testcase / strategy objects) with one temp dir - the way a library user or a second pass
+    in the same process re-uses them.  steps: dicts with strategy, cfg, atom, file0, verdict, and
+    optionally write_fault = k (the k-th write to the testcase path raises OSError after a partial
+    write).  Returns a list of Run objects (no model trace)."""
+    import signal
+    import lithium.strategies as st
+    import lithium.testcases as tcs
+    from lithium.reducer import Lithium
+    work = tempfile.mkdtemp(prefix="lvs-", dir=SCRATCH_ROOT)
+    out = []
+    try:
+        path = os.path.join(work, "t" + ext)
+        tmp = os.path.join(work, "tmp")
+        os.mkdir(tmp)
+        lith = Lithium()
+        lith.temp_dir = Path(tmp)
+        lith.condition_args = ["arg0", path]
+        tc_objs, st_objs = {}, {}
+        for step in steps:
+            res = Run()
+            verdict = step["verdict"]
+            if isinstance(verdict, str):
+                verdict = verdict_from_string(verdict)
+            Path(path).write_bytes(step["file0"])
+            atom = step.get("atom", "line")
+            testcase = tc_objs.get(atom) or getattr(tcs, ATOMS[atom])()
+            tc_objs[atom] = testcase
+            testcase.load(path)
+            res.loaded = (testcase.before, list(testcase.parts), list(testcase.reducible), testcase.after)
+            events = []
+            script = Scripted(path, tmp, verdict, events, exc_class, step.get("cap", 2000))
+            name = step["strategy"]
+            if name not in st_objs:
+                st_objs[name] = make_strategy(name, step.get("cfg", {}))
+            lith.strategy = st_objs[name]
+            lith.testcase = testcase
+            lith.condition_script = script
+            before_count = lith.test_count
+            fault = {"k": step.get("write_fault"), "n": 0}
+            real_open = open
+
+            def faulty_open(p, mode="r", *a, **kw):
+                f = real_open(p, mode, *a, **kw)
+                if "w" in mode and os.path.abspath(str(p)) == os.path.abspath(path):
+                    fault["n"] += 1
+                    if fault["k"] is not None and fault["n"] == fault["k"]:
+                        class Half:
+                            def __enter__(self_):
+                                return self_
+
+                            def __exit__(self_, *exc):
+                                f.close()
+                                return False
+
+                            def write(self_, data):
+                                f.write(bytes(data)[: max(1, len(data) // 2)])
+                                f.flush()
+                                raise OSError(28, "No space left on device (injected)")
+
+                            def writelines(self_, lines):
+                                for x in lines:
+                                    self_.write(x)
+                        return Half()
+                return f
+            if step.get("write_fault") is not None:
+                tcs.open = faulty_open
+            _watch.update(path=os.path.abspath(path), tmp=os.path.abspath(tmp), events=events)
+            old_handler = signal.signal(signal.SIGALRM, _on_alarm)
+            signal.setitimer(signal.ITIMER_REAL, watchdog)
+            try:
+                try:
+                    res.rc = lith.run()
+                finally:
+                    signal.setitimer(signal.ITIMER_REAL, 0)
+                    signal.signal(signal.SIGALRM, old_handler)
+                    _watch.update(events=None)
+                    if step.get("write_fault") is not None:
+                        del tcs.open
+            except CapHit:
+                res.exc = "CapHit"
+            except Hang:
+                res.exc = "Hang"
+            except exc_class:
+                res.exc = "test"
+            except BaseException as e:  # pylint: disable=broad-except
+                res.exc = type(e).__name__
+            res.final = Path(path).read_bytes() if os.path.exists(path) else b"<deleted>"
+            res.seen, res.tests, res.events = script.seen, script.k, events
+            res.writes = events.count("W")
+            res.test_count = lith.test_count - before_count
+            temp = []
+            for f_ in sorted(os.listdir(tmp)):
+                temp.append((os.path.splitext(f_)[0], Path(os.path.join(tmp, f_)).read_bytes(), os.path.splitext(f_)[1]))
+            res.temp = temp
+            li = lith.last_interesting
+            res.last = None if li is None else (li.before, list(li.parts), list(li.reducible), li.after)
+            res.trace = ";".join(events)
+            out.append(res)
+        return out
+    finally:
+        shutil.rmtree(work, ignore_errors=True)
